@@ -14,6 +14,7 @@ from __future__ import annotations
 import ast
 import importlib
 import inspect
+import re
 import textwrap
 from fractions import Fraction
 
@@ -166,6 +167,12 @@ class Translator:
     try:
       return self._get(f, argtypes)
     except TranslateError as e:
+      if "array write" in str(e) or "bare return" in str(e) or "expression statement" in str(e):
+        try:  # a function that writes arrays: translate it as a procedure (list of writes)
+          return self._get_proc(f)
+        except TranslateError as e2:
+          self.errors[f"{modname}.{fname}"] = f"{e} | as procedure: {e2}"
+          return None
       self.errors[f"{modname}.{fname}"] = str(e)
       return None
 
@@ -285,6 +292,53 @@ class Translator:
     finally:
       self.in_progress.discard(key)
 
+  def _get_proc(self, wpfunc):
+    """A wp.func WITHOUT return value that writes arrays ("procedure"): translated like a kernel body into
+    `p_<name> params.. atomic_old shapes.. : list (write S)`, the writes it performs in program order, named
+    by its own parameters (the caller rebases them onto its arrays, see Base/KernelRd.v rebase)."""
+    pyf = wpfunc.func
+    pyqual = f"{pyf.__module__}.{pyf.__qualname__}"
+    key = ("P", pyqual)
+    if key in self.funcs:
+      return self.funcs[key]
+    if key in self.in_progress:
+      raise TranslateError(f"recursion in {pyqual}")
+    sig = inspect.signature(pyf)
+    # a returned value is dropped: procedures are only reached through call STATEMENTS
+    names = list(sig.parameters)
+    ann = dict(getattr(pyf, "__annotations__", {}))
+    decl = []
+    for n in names:
+      a = ann.get(n)
+      if isinstance(a, str):
+        a = eval(a, pyf.__globals__)
+      if a is None or _is_any(a):
+        raise TranslateError(f"{pyqual}: procedure parameter {n} is generic")
+      decl.append(wp_type_to_t(a))
+    self.in_progress.add(key)
+    try:
+      src = textwrap.dedent(inspect.getsource(pyf))
+      fdef = ast.parse(src).body[0]
+      fn = _KernelTr(self, pyf, names, decl, pyqual)
+      fn.proc_mode = True
+      body, rett = fn.run(fdef)
+      if fn.ntid:
+        raise TranslateError(f"{pyqual}: wp.tid() inside a procedure")
+      if fn.natomic:
+        raise TranslateError(f"{pyqual}: value-returning atomic inside a procedure")
+      cn = "p_" + pyf.__name__
+      if any(f.coqname == cn for f in self.funcs.values()):
+        cn = "p_" + pyf.__module__.split(".")[-1] + "__" + pyf.__name__
+      fi = FuncInfo(cn, names + ["atomic_old"], decl + [("O",)], ("W",), body, pyqual, fn.deps, fn.shape_params)
+      fi.notes = fn.notes
+      fi.ntid = 0
+      fi.written = sorted(fn.written)
+      self.funcs[key] = fi
+      self.order.append(key)
+      return fi
+    finally:
+      self.in_progress.discard(key)
+
   @staticmethod
   def _tname(t):
     return "".join(str(x) for x in t).replace("(", "").replace(")", "").replace(",", "").replace(" ", "").replace("'", "")
@@ -316,6 +370,30 @@ def _not_flags(names):
   return ast.UnaryOp(op=ast.Not(), operand=test)
 
 
+def _default_ast(ann):
+  """A constant expression of the annotated return type (bool/int/float/wp.vecN/wp.quat/Tuple of those)."""
+  if ann is None:
+    return None
+  t = ast.unparse(ann)
+  if t == "bool":
+    return ast.Constant(value=False)
+  if t in ("int", "wp.int32"):
+    return ast.Constant(value=0)
+  if t in ("float", "wp.float32"):
+    return ast.Constant(value=0.0)
+  m = re.match(r"^wp\.(vec([234])|quat)$", t)
+  if m:
+    n = int(m.group(2)) if m.group(2) else 4
+    return ast.parse(f"{t}({', '.join(['0.0'] * n)})", mode="eval").body
+  if isinstance(ann, ast.Subscript) and ast.unparse(ann.value) in ("Tuple", "tuple", "typing.Tuple"):
+    elts = ann.slice.elts if isinstance(ann.slice, ast.Tuple) else [ann.slice]
+    ds = [_default_ast(e) for e in elts]
+    if any(d is None for d in ds):
+      return None
+    return ast.Tuple(elts=ds, ctx=ast.Load())
+  return None
+
+
 class _LoopFlags:
   """Rewrite loops so that break / continue / (bare or valued) return inside them become flag
   assignments; statements after a possible exit are guarded.  Semantics preserving: the fold
@@ -338,7 +416,7 @@ class _LoopFlags:
         out.append(_assign_flag(cnt, True, ln))
         return out
       if isinstance(s, ast.Return) and ret is not None:
-        if s.value is not None:
+        if s.value is not None and not self.kernel_mode:
           out.append(ast.Assign(targets=[ast.Name(id="retval__", ctx=ast.Store())], value=s.value, lineno=ln))
         out.append(_assign_flag(ret, True, ln))
         if brk is not None:
@@ -453,18 +531,23 @@ class _FnTr:
       self.shape_params.append(key)
     return f"{cname(root)}__shape{k + consumed}"
 
-  def prepass(self, body, kernel_mode):
+  def prepass(self, body, kernel_mode, returns=None):
     lf = _LoopFlags(kernel_mode)
     body = lf.function(body)
+    if lf.ret_flag and not kernel_mode:
+      # the value returned from inside a loop is carried in retval__, which needs a typed initial
+      # value (never observed: it is read only under ret__) - taken from the return annotation
+      dflt = _default_ast(returns)
+      if dflt is None:
+        self.err(body[0], "valued return inside a loop (needs a typed default)")
+      body = [ast.Assign(targets=[ast.Name(id="retval__", ctx=ast.Store())], value=dflt, lineno=getattr(body[0], "lineno", 0))] + body
     for st in body:
       ast.fix_missing_locations(st)
-    if lf.ret_flag and not kernel_mode:
-      self.err(body[0], "valued return inside a loop (needs a typed default)")
     return body
 
   def run(self, fdef):
     body = [s for s in fdef.body if not (isinstance(s, ast.Expr) and isinstance(getattr(s, "value", None), ast.Constant))]
-    body = self.prepass(body, False)
+    body = self.prepass(body, False, fdef.returns)
     code = self.block(body, dict(self.env0), None, 1)
     return code, self.rettype
 
@@ -1253,6 +1336,12 @@ class _KernelTr(_FnTr):
             r = root(n.args[0])
             if r in self.array_names:
               out.add(r)
+          if isinstance(n, ast.Expr) and isinstance(n.value, ast.Call) and not ast.unparse(n.value.func).startswith("wp."):
+            # call statement of a (possibly writing) user function: every array handed to it may be written
+            for a in n.value.args:
+              r = root(a) if isinstance(a, (ast.Name, ast.Subscript)) else None
+              if r in self.array_names:
+                out.add(r)
     return out
 
   def e_Subscript(self, e, env):
@@ -1275,6 +1364,8 @@ class _KernelTr(_FnTr):
             if isinstance(t, ast.Subscript):
               return True
         if isinstance(n, ast.Call) and ast.unparse(n.func).startswith("wp.atomic_"):
+          return True
+        if isinstance(n, ast.Expr) and isinstance(n.value, ast.Call) and not ast.unparse(n.value.func).startswith("wp."):
           return True
     return False
 
@@ -1341,7 +1432,7 @@ class _KernelTr(_FnTr):
       return self.block(rest, env2, k, d2)
 
     I = self.ind(d)
-    if isinstance(s, ast.Return) and s.value is None:
+    if isinstance(s, ast.Return) and (s.value is None or getattr(self, "proc_mode", False)):
       return I + "writes__"
     # tid
     if isinstance(s, ast.Assign) and isinstance(s.value, ast.Call) and ast.unparse(s.value.func) == "wp.tid":
@@ -1397,7 +1488,61 @@ class _KernelTr(_FnTr):
       return self.emit_write(root, idxcodes, kind, vcode, env, cont, d)
     if isinstance(s, ast.Expr) and isinstance(s.value, ast.Call) and ast.unparse(s.value.func) in ("wp.printf", "print"):
       return cont(env)
+    if isinstance(s, ast.Expr) and isinstance(s.value, ast.Call) and not s.value.keywords:
+      kind, f = self.resolve(s.value.func, env)
+      if kind == "user":
+        return self.proc_call(s.value, f, env, cont, d)
     return super().block(stmts, env, k, d)
+
+  def proc_call(self, e, f, env, cont, d):
+    """Statement `g(args)` where g is a wp.func without return value: append g's writes, rebased from g's
+    parameter names onto this kernel's arrays; arrays this task may already have written are handed over
+    wrapped in the read-through of the writes so far."""
+    fi = self.tr._get_proc(f)
+    want = list(fi.argtypes[:-1])
+    if len(want) != len(e.args):
+      self.err(e, f"arity of {fi.coqname}")
+    ac, rebase = [], []
+    for i, (a, w) in enumerate(zip(e.args, want)):
+      c, g = self.expr(a, env)
+      if w != g:
+        if is_vec(w) and is_vec(g) and vlen(w) == vlen(g):
+          pass
+        elif w == S and g == Z and self._is_int_literal(a):
+          c = f"(sofZ {c})"
+        else:
+          self.err(e, f"argument {i} of {fi.coqname}: {g} for {w}")
+      if w[0] == "A":
+        r = self.root_of(a, env) if isinstance(a, (ast.Name, ast.Subscript)) else None
+        if r is None:
+          self.err(e, f"argument {i} of {fi.coqname}: not an array parameter or a view of one")
+        root, pre = r
+        pname = fi.argnames[i]
+        if pname in fi.written:
+          self.written.add(root)
+        rebase.append(f'("{pname}"%string, ("{root}"%string, [{"; ".join(pre)}]))')
+        if root in getattr(self, "maybe_written", ()):
+          nd = w[2]
+          vs = [f"i{j}__" for j in range(nd)]
+          elt = w[1]
+          rd = {"S": "rdS", "Z": "rdZ", "B": "rdB", "VI": "rdZs"}.get(elt[0], "rdV")
+          c = f'(fun {" ".join(vs)} => {rd} writes__ "{root}"%string ([{"; ".join(pre)}] ++ [{"; ".join(vs)}])%list ({c} {" ".join(vs)}))'
+      ac.append(c)
+    extra = []
+    for r0, kdim in fi.shape_params:
+      pos = fi.argnames.index(r0)
+      base, nsub = e.args[pos], 0
+      while isinstance(base, ast.Subscript):
+        nsub += len(base.slice.elts) if isinstance(base.slice, ast.Tuple) else 1
+        base = base.value
+      if not (isinstance(base, ast.Name) and base.id in env and env[base.id][0] == "A"):
+        self.err(e, f"cannot pass the shape of argument {pos} of {fi.coqname}")
+      extra.append(self.shape_param(base.id, kdim + nsub, env))
+    if fi.coqname not in self.deps:
+      self.deps.append(fi.coqname)
+    I = self.ind(d)
+    call = "(" + " ".join([fi.coqname] + ac + ["atomic_old"] + extra) + ")"
+    return f"{I}let writes__ := (writes__ ++ rebase [{'; '.join(rebase)}] {call})%list in\n" + cont(env)
 
   def atomic(self, c, env):
     op = ast.unparse(c.func).split("_", 1)[1]
